@@ -196,13 +196,20 @@ def independence_task(kind, kw, n_ind=2, n_vis=2):
     return guarded(PROP, task, body)
 
 
+def scipy_plumbing_task(n_ids):
+    """personalized parameters are paired with the right individual whatever the order of the ids (optimiser stubbed; see harness/c17.py)"""
+    from harness.c17 import plumbing_task
+
+    return plumbing_task(n_ids, prop=PROP)
+
+
 def tasks(tier, seed=0):
     cfgs = [
         ("logistic", dict(features=["a", "b"], source_dimension=1, obs_models="gaussian-diagonal")),
         ("logistic", dict(features=["a", "b"], source_dimension=0, obs_models="gaussian-scalar")),
         ("linear", dict(features=["a", "b"], source_dimension=1, obs_models="gaussian-scalar")),
     ]
-    ts = [("independence_task", dict(kind=k, kw=kw)) for k, kw in cfgs]
+    ts = [("independence_task", dict(kind=k, kw=kw)) for k, kw in cfgs] + [("scipy_plumbing_task", dict(n_ids=3))]
     if tier == "thorough":
         ts += [("independence_task", dict(kind=k, kw=kw, n_ind=3)) for k, kw in cfgs]
         ts.append(("independence_task", dict(kind="shared_speed_logistic", kw=dict(features=["a", "b"], source_dimension=1))))
